@@ -506,7 +506,20 @@ class BaseCurve(Intface_BaseCurve):
         if self.knotvector.limits != newknotvector.limits:
             raise ValueError
         temp_curve = self.__class__(newknotvector)
-        error = temp_curve.fit_curve(self, nodes)
+        if self.weights is None:
+            error = temp_curve.fit_curve(self, nodes)
+        else:  # Project the numerator and the denominator splines
+            numerator, denominator = self.fraction()
+            temp_numer = self.__class__(newknotvector)
+            temp_denom = self.__class__(newknotvector)
+            error = temp_numer.fit_curve(numerator, nodes)
+            error += temp_denom.fit_curve(denominator, nodes)
+            weights = temp_denom.ctrlpoints
+            points = temp_numer.ctrlpoints
+            if min(map(abs, weights)) <= 1e-9 * max(map(abs, weights)):
+                raise ValueError("Cannot update knotvector: a weight vanishes")
+            temp_curve.ctrlpoints = [pt / wi for pt, wi in zip(points, weights)]
+            temp_curve.weights = weights
         if tolerance and error > tolerance:
             error_msg = "Cannot update knotvector cause error is "
             error_msg += f" {float(error):.2e} > {tolerance}"
